@@ -1,0 +1,14 @@
+//go:build verif
+// +build verif
+
+package capnp
+
+// VerifMuFree reports whether p.mu is currently free (read-only probe used by the
+// verification harness at quiescent points; compiled only with the build tag "verif").
+func (p *Promise) VerifMuFree() bool {
+	if p.mu.TryLock() {
+		p.mu.Unlock()
+		return true
+	}
+	return false
+}
